@@ -186,7 +186,7 @@ def run(ctx) -> None:
     ctx.assumptions += [
         're/int/bytes of CPython are the semantics of the implementation side',
     ]
-    ctx.check_proofs()
+    ctx.check_proofs(['Wire/SeqSetCheck'])
     for sec in SECTIONS:
         sec(ctx)
     # further sections are appended by harness/props/C18_*.py modules
